@@ -195,7 +195,7 @@ Definition mon06_step (ops : list op) (prev : obs) (o : op) (cur : obs) : list N
     | _ => []
     end in
   (* 10 / 11: a task the core launched runs at the master, is in no roster and was never sent KILL.
-     10: it was launched by a non-final attempt of a deployment that acquireTasks retried (C06-d);
+     10: it was launched by a non-final attempt of a deployment that acquireTasks retried (repaired C06-d);
      11: any other *)
   let fresh := filter (fun id => negb (mem_tid id (ob_leak prev))) (ob_leak cur) in
   let early_attempt (id : tid) : bool :=
@@ -219,7 +219,7 @@ Definition hang_code (c : hcase) : N :=
   end.
 
 Definition mon06 (c : hcase) : N :=
-  first_code [10]
+  first_code []
     (mon_walk (mon06_step (h_ops c)) obs0 (h_ops c) (h_obs c) ++
      (if Nat.ltb (length (h_obs c)) (length (h_ops c)) then [hang_code c]
       else if Nat.ltb (length (h_ops c)) (length (h_obs c)) then [90] else [])).
